@@ -137,6 +137,9 @@ type scenario struct {
 	hostile    bool
 	inCount    int
 	sent2      map[uint16][]byte
+	dropComp   bool // the broker withholds every PUBCOMP
+	seen1, seen2 int // client publishes seen per level (next identifier in line = space | count)
+	recd2        int // PUBRECs the broker has sent
 	wscript    []writeAns // when non-empty: the fate of the next writes
 	noFaults   bool       // suspend random faults (scripted parts of a history)
 	inject     [][]byte   // broker packets to deliver next, before anything else
@@ -154,6 +157,7 @@ type seqOpts struct {
 	steps       int
 	bigMsgs     bool
 	adoptRate   int
+	damageRate  int  // percent of restarts preceded by tampering with the Persistence
 	wrapStart   bool // position the sequences near the 14-bit wrap
 }
 
@@ -262,6 +266,11 @@ func (sc *scenario) react(c *simConn, all []byte) {
 			}
 			tl := int(binary.BigEndian.Uint16(body))
 			id := binary.BigEndian.Uint16(body[2+tl:])
+			if n := int(id&0x3fff) + 1; qos == 1 && n > sc.seen1 {
+				sc.seen1 = n
+			} else if qos == 2 && n > sc.seen2 {
+				sc.seen2 = n
+			}
 			if sc.lost() {
 				continue
 			}
@@ -269,12 +278,13 @@ func (sc *scenario) react(c *simConn, all []byte) {
 				b.queue = append(b.queue, readAns{kind: rData, data: ack4(0x40, id)})
 			} else {
 				sc.awaitRel[id] = true
+				sc.recd2++
 				b.queue = append(b.queue, readAns{kind: rData, data: ack4(0x50, id)})
 			}
 		case 6: // PUBREL
 			id := binary.BigEndian.Uint16(body)
 			delete(sc.awaitRel, id)
-			if sc.lost() {
+			if sc.lost() || sc.dropComp {
 				continue
 			}
 			b.queue = append(b.queue, readAns{kind: rData, data: ack4(0x70, id)})
@@ -377,6 +387,22 @@ func (sc *scenario) inboundPublish() []byte {
 }
 
 func (sc *scenario) hostilePacket() []byte {
+	// acknowledgements carrying exactly the identifier that is next in line, for transfers
+	// that do not exist (yet): the boundary of the in-order guards
+	switch sc.r.intn(16) {
+	case 10:
+		return ack4(0x40, 0x8000|uint16(sc.seen1&0x3fff))
+	case 11:
+		return ack4(0x50, 0xc000|uint16(sc.seen2&0x3fff))
+	case 12:
+		return ack4(0x70, 0xc000|uint16(sc.seen2&0x3fff))
+	case 13:
+		return ack4(0x50, 0xc000|uint16(sc.recd2&0x3fff)) // PUBREC for the next one not yet confirmed
+	case 14:
+		return ack4(0x70, 0xc000|uint16(sc.recd2&0x3fff)) // PUBCOMP before PUBREL
+	case 15:
+		return ack4(0x40, 0x8000|uint16((sc.seen1+1)&0x3fff))
+	}
 	switch sc.r.intn(10) {
 	case 0:
 		return []byte{0x00, 0} // reserved type
@@ -738,6 +764,38 @@ func (h *hist) rewrite(f func(m map[uint][]byte)) {
 	h.nontriv = true
 }
 
+// randomDamage alters, truncates or removes up to three records, or adds stray ones.
+func (h *hist) randomDamage(r *rng) {
+	h.rewrite(func(m map[uint][]byte) {
+		var keys []int
+		for k := range m {
+			if k != 0 || r.chance(1, 6) {
+				keys = append(keys, int(k))
+			}
+		}
+		sort.Ints(keys)
+		n := 1 + r.intn(3)
+		for i := 0; i < n && len(keys) > 0; i++ {
+			k := uint(keys[r.intn(len(keys))])
+			v := append([]byte(nil), m[k]...)
+			switch r.intn(4) {
+			case 0:
+				if len(v) > 0 {
+					v[r.intn(len(v))] ^= byte(1 + r.intn(255))
+					m[k] = v
+				}
+			case 1:
+				m[k] = v[:r.intn(len(v)+1)]
+			case 2:
+				delete(m, k)
+			default:
+				m[uint(r.intn(0x20000))] = r.bytes(r.intn(20))
+			}
+		}
+	})
+	h.stats["damage"]++
+}
+
 func coqZ(n int) string {
 	if n < 0 {
 		return fmt.Sprintf("(%d)%%Z", n)
@@ -1047,6 +1105,9 @@ func (h *hist) randomOps(r *rng, o seqOpts) {
 			sort.Ints(rids)
 			h.quit(rids[r.intn(len(rids))])
 		case k < 88+o.adoptRate:
+			if o.damageRate > 0 && r.intn(100) < o.damageRate {
+				h.randomDamage(r)
+			}
 			h.adopt()
 		case k < 97:
 			if h.bigMsg != nil && r.chance(2, 3) {
